@@ -1,5 +1,5 @@
 (** A syntactic criterion for monotonicity in a fixed-point name (C06): if every free occurrence of X in a
-    fixed-point-free body has positive polarity - X under and / or / if-branches / quantifiers / at-least
+    body has positive polarity - X under and / or / if-branches / quantifiers / at-least
     counting / an even number of negations, never under xor / iff / an if-condition / exactly-counting -
     then the body's meaning is monotone in the value of X.  Hence (with C06_lfp_fixfree) lfp X # T
     terminates at the least fixed point for every such body. *)
@@ -35,7 +35,7 @@ Fixpoint pos (X : nat) (p : bool) (f : form) : bool :=
       | BImpliesInv => pos X p a && pos X (negb p) b
       | BXor | BIff => pos X p a && pos X (negb p) a && pos X p b && pos X (negb p) b
       end
-  | FFix _ _ _ => false                         (* outside the fragment of this criterion *)
+  | FFix Y _ g => if Nat.eqb Y X then true else pos X p g      (* an inner binder on X shadows it *)
   | _ => true
   end.
 
@@ -74,123 +74,228 @@ Proof.
   specialize (Hab s). destruct (a s); [rewrite (Hab eq_refl); lia|destruct (b s); lia].
 Qed.
 
-Section Mono.
-  Variable X : nat.
+(** every inner fixed point binds a name that is positive in its own body *)
+Fixpoint posfix (f : form) : bool :=
+  match f with
+  | FFix Y _ g => pos Y true g && posfix g
+  | FNot g | FQuant _ _ g => posfix g
+  | FCountC _ fs _ => forallb posfix fs
+  | FCountV _ l r => forallb posfix l && forallb posfix r
+  | FIte a b c => posfix a && posfix b && posfix c
+  | FBin _ a b => posfix a && posfix b
+  | _ => true
+  end.
 
-  Lemma Forall2_ord p fs : Forall (fun g => forall q, pos X q g = true -> forall r d1 d2 e1 e2, dle d1 d2 ->
-            Den (bind r X d1) g e1 -> Den (bind r X d2) g e2 -> ord_p q e1 e2) fs ->
-    forallb (pos X p) fs = true -> forall r d1 d2 ds1 ds2, dle d1 d2 ->
-    Forall2 (Den (bind r X d1)) fs ds1 -> Forall2 (Den (bind r X d2)) fs ds2 -> Forall2 (ord_p p) ds1 ds2.
-  Proof.
-    intros HF Hp r d1 d2 ds1 ds2 Hd H1. revert ds2 HF Hp.
-    induction H1 as [|g e1 fs' ds1' Hg _ IH]; intros ds2 HF Hp H2.
-    - inversion H2; subst. constructor.
-    - inversion H2 as [|g' e2 fs2 ds2' Hg2 Hrest]; subst.
-      cbn [forallb] in Hp. apply andb_true_iff in Hp. destruct Hp as [Hpg Hpr].
-      inversion HF as [|g'' fs'' Hhead Htail]; subst.
-      constructor; [exact (Hhead p Hpg r d1 d2 e1 e2 Hd Hg Hg2)|apply IH; auto].
-  Qed.
+(** two environments that differ only on names in [Up] (by going up) and on names in [Dn] (by going down) *)
+Definition erel (Up Dn : nat -> Prop) (r1 r2 : fenv) : Prop :=
+  forall y, match r1 y, r2 y with
+            | None, None => True
+            | Some a, Some b => deq a b \/ (Up y /\ dle a b) \/ (Dn y /\ dle b a)
+            | _, _ => False
+            end.
 
-  Lemma count_ord p ds1 ds2 s : Forall2 (ord_p p) ds1 ds2 ->
-    if p then (count_den ds1 s <= count_den ds2 s)%Z else (count_den ds2 s <= count_den ds1 s)%Z.
-  Proof.
-    intros H. destruct p; apply count_le.
-    - exact H.
-    - clear s. induction H; constructor; auto.
-  Qed.
+Definition mono_stmt (g : form) : Prop :=
+  posfix g = true -> forall q (Up Dn : nat -> Prop) r1 r2 e1 e2,
+    (forall y, Up y -> pos y q g = true) -> (forall y, Dn y -> pos y (negb q) g = true) ->
+    erel Up Dn r1 r2 -> Den r1 g e1 -> Den r2 g e2 -> ord_p q e1 e2.
 
-  Theorem mono_pos : forall f, nofix f -> forall p, pos X p f = true -> forall r d1 d2 e1 e2, dle d1 d2 ->
-    Den (bind r X d1) f e1 -> Den (bind r X d2) f e2 -> ord_p p e1 e2.
-  Proof.
-    induction f as [| |v|g IH|q vs g IH|op fs n IH|op l rr IHl IHr|y i g IH|c t e IHc IHt IHe|op a b IHa IHb|b0|] using form_ind';
-      intros Hnf p Hp r d1 d2 e1 e2 Hd H1 H2; cbn [nofix] in Hnf; cbn [pos] in Hp.
-    - cbn [Den] in H1, H2. apply ord_refl_deq. intros s. rewrite H1, H2. reflexivity.
-    - cbn [Den] in H1, H2. apply ord_refl_deq. intros s. rewrite H1, H2. reflexivity.
-    - (* FVar *) cbn [Den] in H1, H2. unfold bind in H1, H2. destruct (Nat.eqb_spec v X) as [->|Hne].
-      + subst p. cbn. intros s Hs. rewrite H1 in Hs. rewrite H2. apply Hd. exact Hs.
-      + apply ord_refl_deq. intros s. rewrite H1, H2. reflexivity.
-    - (* FNot *) cbn [Den] in H1, H2. destruct H1 as (a1 & D1 & E1), H2 as (a2 & D2 & E2).
-      pose proof (IH Hnf (negb p) Hp r d1 d2 a1 a2 Hd D1 D2) as Ho. apply ord_negb in Ho.
-      destruct p; cbn in *; intros s Hs; [rewrite E1 in Hs; rewrite E2|rewrite E2 in Hs; rewrite E1]; apply Ho; exact Hs.
-    - (* FQuant *) cbn [Den] in H1, H2. destruct H1 as (a1 & D1 & E1), H2 as (a2 & D2 & E2).
-      assert (Ho : ord_p p a1 a2).
-      { destruct (mem_nat X vs) eqn:Em.
-        - (* X is re-bound by the quantifier: both bodies are evaluated in the same environment *)
-          apply ord_refl_deq.
-          pose proof (Den_ext g _ _ a1 a1 (eeq_sym _ _ (eeq_unbind_bind_in r X d1 vs Em)) (deq_refl a1) D1) as D1'.
-          pose proof (Den_ext g _ _ a2 a2 (eeq_sym _ _ (eeq_unbind_bind_in r X d2 vs Em)) (deq_refl a2) D2) as D2'.
-          exact (Den_fun g _ a1 a2 D1' D2').
-        - pose proof (Den_ext g _ _ a1 a1 (eeq_sym _ _ (eeq_unbind_bind_out r X d1 vs Em)) (deq_refl a1) D1) as D1'.
-          pose proof (Den_ext g _ _ a2 a2 (eeq_sym _ _ (eeq_unbind_bind_out r X d2 vs Em)) (deq_refl a2) D2) as D2'.
-          exact (IH Hnf p Hp (unbind r vs) d1 d2 a1 a2 Hd D1' D2'). }
-      pose proof (ord_quant q p vs a1 a2 Ho) as Hq.
-      destruct p; cbn in *; intros s Hs; [rewrite E1 in Hs; rewrite E2|rewrite E2 in Hs; rewrite E1]; apply Hq; exact Hs.
-    - (* FCountC *) apply nofix_list in Hnf.
-      apply Den_countc in H1. apply Den_countc in H2. destruct H1 as (ds1 & F1 & E1), H2 as (ds2 & F2 & E2).
-      apply Dens_Forall2 in F1. apply Dens_Forall2 in F2.
-      assert (HF : Forall (fun g => forall q, pos X q g = true -> forall r d1 d2 e1 e2, dle d1 d2 ->
-                 Den (bind r X d1) g e1 -> Den (bind r X d2) g e2 -> ord_p q e1 e2) fs).
-      { rewrite Forall_forall in *. intros g Hg q0 Hq0. apply IH; auto. }
-      assert (Cmp : forall q0, forallb (pos X q0) fs = true -> forall s,
-                 if q0 then (count_den ds1 s <= count_den ds2 s)%Z else (count_den ds2 s <= count_den ds1 s)%Z).
-      { intros q0 Hq0 s. apply count_ord. eapply Forall2_ord; eauto. }
-      destruct op; destruct p; cbn [negb] in Hp; cbn [ord_p]; intros s Hs;
-        try (apply andb_true_iff in Hp; destruct Hp as [Hp1 Hp2]);
-        first [rewrite E1 in Hs; rewrite E2 | rewrite E2 in Hs; rewrite E1]; cbn [cop_sem] in *;
-        repeat match goal with
-        | H : forallb (pos X ?b) fs = true |- _ => let c := fresh "C" in pose proof (Cmp b H s) as c; cbv iota beta in c; clear H
-        end; lia.
-    - (* FCountV *) destruct Hnf as [Nl Nr]. apply nofix_list in Nl. apply nofix_list in Nr.
-      apply Den_countv in H1. apply Den_countv in H2.
-      destruct H1 as (dl1 & dr1 & Fl1 & Fr1 & E1), H2 as (dl2 & dr2 & Fl2 & Fr2 & E2).
-      apply Dens_Forall2 in Fl1. apply Dens_Forall2 in Fr1. apply Dens_Forall2 in Fl2. apply Dens_Forall2 in Fr2.
-      assert (HFl : Forall (fun g => forall q, pos X q g = true -> forall r d1 d2 e1 e2, dle d1 d2 ->
-                 Den (bind r X d1) g e1 -> Den (bind r X d2) g e2 -> ord_p q e1 e2) l).
-      { rewrite Forall_forall in *. intros g Hg q0 Hq0. apply IHl; auto. }
-      assert (HFr : Forall (fun g => forall q, pos X q g = true -> forall r d1 d2 e1 e2, dle d1 d2 ->
-                 Den (bind r X d1) g e1 -> Den (bind r X d2) g e2 -> ord_p q e1 e2) rr).
-      { rewrite Forall_forall in *. intros g Hg q0 Hq0. apply IHr; auto. }
-      assert (CmpL : forall q0, forallb (pos X q0) l = true -> forall s,
-                 if q0 then (count_den dl1 s <= count_den dl2 s)%Z else (count_den dl2 s <= count_den dl1 s)%Z).
-      { intros q0 Hq0 s. apply count_ord. exact (Forall2_ord q0 l HFl Hq0 r d1 d2 dl1 dl2 Hd Fl1 Fl2). }
-      assert (CmpR : forall q0, forallb (pos X q0) rr = true -> forall s,
-                 if q0 then (count_den dr1 s <= count_den dr2 s)%Z else (count_den dr2 s <= count_den dr1 s)%Z).
-      { intros q0 Hq0 s. apply count_ord. exact (Forall2_ord q0 rr HFr Hq0 r d1 d2 dr1 dr2 Hd Fr1 Fr2). }
-      destruct op; destruct p; cbn [negb] in Hp; cbn [ord_p]; intros s Hs;
-        repeat match goal with H : _ && _ = true |- _ => apply andb_true_iff in H; destruct H end;
-        first [rewrite E1 in Hs; rewrite E2 | rewrite E2 in Hs; rewrite E1]; cbn [cop_sem] in *;
-        repeat match goal with
-        | H : forallb (pos X ?b) l = true |- _ => let c := fresh "C" in pose proof (CmpL b H s) as c; cbv iota beta in c; clear H
-        | H : forallb (pos X ?b) rr = true |- _ => let c := fresh "C" in pose proof (CmpR b H s) as c; cbv iota beta in c; clear H
-        end; lia.
-    - (* FFix *) discriminate.
-    - (* FIte *) destruct Hnf as (Nc & Nt & Ne).
-      repeat match goal with H : _ && _ = true |- _ => apply andb_true_iff in H; destruct H end.
-      cbn [Den] in H1, H2. destruct H1 as (c1 & t1 & x1 & Dc1 & Dt1 & De1 & E1), H2 as (c2 & t2 & x2 & Dc2 & Dt2 & De2 & E2).
-      assert (Hc : deq c1 c2).
-      { apply ord_both; [eapply (IHc Nc true)|eapply (IHc Nc false)]; eauto; destruct p; auto. }
-      pose proof (IHt Nt p ltac:(assumption) r d1 d2 t1 t2 Hd Dt1 Dt2) as Ht.
-      pose proof (IHe Ne p ltac:(assumption) r d1 d2 x1 x2 Hd De1 De2) as He.
-      destruct p; cbn in *; intros s Hs; [rewrite E1 in Hs; rewrite E2|rewrite E2 in Hs; rewrite E1]; rewrite <- ?(Hc s) in *;
-        destruct (c1 s) eqn:Ec; rewrite ?(Hc s) in *; try rewrite <- (Hc s); rewrite ?Ec in *; auto.
-    - (* FBin *) destruct Hnf as (Na & Nb).
-      cbn [Den] in H1, H2. destruct H1 as (a1 & b1 & Da1 & Db1 & E1), H2 as (a2 & b2 & Da2 & Db2 & E2).
-      assert (Ha : forall q0, pos X q0 a = true -> ord_p q0 a1 a2) by (intros q0 Hq0; eapply IHa; eauto).
-      assert (Hb : forall q0, pos X q0 b = true -> ord_p q0 b1 b2) by (intros q0 Hq0; eapply IHb; eauto).
-      destruct op; destruct p; cbn [negb] in Hp;
-        repeat match goal with H : _ && _ = true |- _ => apply andb_true_iff in H; destruct H end;
-        repeat match goal with
-        | H : pos X ?q a = true |- _ => let c := fresh "A" in pose proof (Ha q H) as c; clear H
-        | H : pos X ?q b = true |- _ => let c := fresh "B" in pose proof (Hb q H) as c; clear H
-        end;
-        cbn [ord_p] in *; intros s Hs; first [rewrite E1 in Hs; rewrite E2 | rewrite E2 in Hs; rewrite E1]; cbn [binop_sem] in *;
-        repeat match goal with H : dle _ _ |- _ => specialize (H s) end;
-        destruct (a1 s), (a2 s), (b1 s), (b2 s); cbn in *; auto;
-        repeat match goal with H : true = true -> _ |- _ => specialize (H eq_refl) end; try discriminate; auto.
-    - (* FSub *) cbn [Den] in H1, H2. apply ord_refl_deq. intros s. rewrite H1, H2. reflexivity.
-    - (* FRef *) cbn [Den] in H1, H2. apply ord_refl_deq. intros s. rewrite H1, H2. reflexivity.
-  Qed.
-End Mono.
+Lemma Forall2_ord p fs : Forall mono_stmt fs -> forallb posfix fs = true ->
+  forall (Up Dn : nat -> Prop) r1 r2 ds1 ds2,
+    (forall y, Up y -> forallb (pos y p) fs = true) -> (forall y, Dn y -> forallb (pos y (negb p)) fs = true) ->
+    erel Up Dn r1 r2 -> Forall2 (Den r1) fs ds1 -> Forall2 (Den r2) fs ds2 -> Forall2 (ord_p p) ds1 ds2.
+Proof.
+  intros HF Hpf Up Dn r1 r2 ds1 ds2 HU HD Hrel H1. revert ds2 HF Hpf HU HD.
+  induction H1 as [|g e1 fs' ds1' Hg _ IH]; intros ds2 HF Hpf HU HD H2.
+  - inversion H2; subst. constructor.
+  - inversion H2 as [|g' e2 fs2 ds2' Hg2 Hrest]; subst.
+    cbn [forallb] in Hpf. apply andb_true_iff in Hpf. destruct Hpf as [Hpg Hpr].
+    inversion HF as [|g'' fs'' Hhead Htail]; subst.
+    constructor.
+    + apply (Hhead Hpg p Up Dn r1 r2 e1 e2); auto.
+      * intros y Hy. specialize (HU y Hy). cbn [forallb] in HU. apply andb_true_iff in HU. tauto.
+      * intros y Hy. specialize (HD y Hy). cbn [forallb] in HD. apply andb_true_iff in HD. tauto.
+    + apply IH; auto.
+      * intros y Hy. specialize (HU y Hy). cbn [forallb] in HU. apply andb_true_iff in HU. tauto.
+      * intros y Hy. specialize (HD y Hy). cbn [forallb] in HD. apply andb_true_iff in HD. tauto.
+Qed.
+
+Lemma count_ord p ds1 ds2 s : Forall2 (ord_p p) ds1 ds2 ->
+  if p then (count_den ds1 s <= count_den ds2 s)%Z else (count_den ds2 s <= count_den ds1 s)%Z.
+Proof.
+  intros H. destruct p; apply count_le.
+  - exact H.
+  - clear s. induction H; constructor; auto.
+Qed.
+
+(** side conditions of the form "every name in Up / Dn has polarity q in this operand" *)
+Ltac side HU HD :=
+  let y := fresh "y" in let Hy := fresh "Hy" in let Hh := fresh "Hh" in
+  intros y Hy; first [pose proof (HU y Hy) as Hh | pose proof (HD y Hy) as Hh];
+  cbn [negb] in Hh; repeat rewrite andb_true_iff in Hh; tauto.
+
+Theorem mono_env : forall f, mono_stmt f.
+Proof.
+  unfold mono_stmt.
+  induction f as [| |v|g IH|q vs g IH|op fs n IH|op l rr IHl IHr|Y i g IH|c t e IHc IHt IHe|op a b IHa IHb|b0|] using form_ind';
+    intros Hpf p Up Dn r1 r2 e1 e2 HU HD Hrel H1 H2; cbn [posfix] in Hpf.
+  - cbn [Den] in H1, H2. apply ord_refl_deq. intros s. rewrite H1, H2. reflexivity.
+  - cbn [Den] in H1, H2. apply ord_refl_deq. intros s. rewrite H1, H2. reflexivity.
+  - (* FVar *) cbn [Den] in H1, H2. specialize (Hrel v). specialize (HU v). specialize (HD v).
+    cbn [pos] in HU, HD. rewrite Nat.eqb_refl in HU, HD.
+    destruct (r1 v) as [a1|], (r2 v) as [a2|]; try contradiction.
+    + destruct Hrel as [E|[[U L]|[D L]]].
+      * apply ord_refl_deq. intros s. rewrite H1, H2. apply E.
+      * rewrite (HU U). cbn. intros s Hs. rewrite H1 in Hs. rewrite H2. apply L. exact Hs.
+      * specialize (HD D). destruct p; [discriminate|]. cbn. intros s Hs. rewrite H2 in Hs. rewrite H1. apply L. exact Hs.
+    + apply ord_refl_deq. intros s. rewrite H1, H2. reflexivity.
+  - (* FNot *) cbn [Den] in H1, H2. destruct H1 as (a1 & D1 & E1), H2 as (a2 & D2 & E2).
+    pose proof (IH Hpf (negb p) Up Dn r1 r2 a1 a2 HU HD Hrel D1 D2) as Ho. apply ord_negb in Ho.
+    destruct p; cbn in *; intros s Hs; [rewrite E1 in Hs; rewrite E2|rewrite E2 in Hs; rewrite E1]; apply Ho; exact Hs.
+  - (* FQuant *) cbn [Den] in H1, H2. destruct H1 as (a1 & D1 & E1), H2 as (a2 & D2 & E2).
+    assert (Ho : ord_p p a1 a2).
+    { apply (IH Hpf p (fun y => Up y /\ mem_nat y vs = false) (fun y => Dn y /\ mem_nat y vs = false) (unbind r1 vs) (unbind r2 vs)); auto.
+      - intros y [U Em]. specialize (HU y U). cbn [pos] in HU. rewrite Em in HU. exact HU.
+      - intros y [D Em]. specialize (HD y D). cbn [pos] in HD. rewrite Em in HD. exact HD.
+      - intros y. unfold unbind. destruct (mem_nat y vs) eqn:Em; [exact I|].
+        specialize (Hrel y). destruct (r1 y), (r2 y); auto. destruct Hrel as [E|[[U L]|[D L]]]; auto. }
+    pose proof (ord_quant q p vs a1 a2 Ho) as Hq.
+    destruct p; cbn in *; intros s Hs; [rewrite E1 in Hs; rewrite E2|rewrite E2 in Hs; rewrite E1]; apply Hq; exact Hs.
+  - (* FCountC *)
+    apply Den_countc in H1. apply Den_countc in H2. destruct H1 as (ds1 & F1 & E1), H2 as (ds2 & F2 & E2).
+    apply Dens_Forall2 in F1. apply Dens_Forall2 in F2.
+    assert (Cmp : forall q0, (forall y, Up y -> forallb (pos y q0) fs = true) -> (forall y, Dn y -> forallb (pos y (negb q0)) fs = true) ->
+               forall s, if q0 then (count_den ds1 s <= count_den ds2 s)%Z else (count_den ds2 s <= count_den ds1 s)%Z).
+    { intros q0 A B s. apply count_ord. exact (Forall2_ord q0 fs IH Hpf Up Dn r1 r2 ds1 ds2 A B Hrel F1 F2). }
+    cbn [pos] in HU, HD.
+    destruct op; destruct p; cbn [negb] in HU, HD; cbn [ord_p]; intros s Hs;
+      first [rewrite E1 in Hs; rewrite E2 | rewrite E2 in Hs; rewrite E1]; cbn [cop_sem] in *;
+      try (pose proof (Cmp true ltac:(side HU HD) ltac:(side HU HD) s) as C1; cbv iota beta in C1);
+      try (pose proof (Cmp false ltac:(side HU HD) ltac:(side HU HD) s) as C2; cbv iota beta in C2); lia.
+  - (* FCountV *) apply andb_true_iff in Hpf. destruct Hpf as [Pl Pr].
+    apply Den_countv in H1. apply Den_countv in H2.
+    destruct H1 as (dl1 & dr1 & Fl1 & Fr1 & E1), H2 as (dl2 & dr2 & Fl2 & Fr2 & E2).
+    apply Dens_Forall2 in Fl1. apply Dens_Forall2 in Fr1. apply Dens_Forall2 in Fl2. apply Dens_Forall2 in Fr2.
+    assert (CmpL : forall q0, (forall y, Up y -> forallb (pos y q0) l = true) -> (forall y, Dn y -> forallb (pos y (negb q0)) l = true) ->
+               forall s, if q0 then (count_den dl1 s <= count_den dl2 s)%Z else (count_den dl2 s <= count_den dl1 s)%Z).
+    { intros q0 A B s. apply count_ord. exact (Forall2_ord q0 l IHl Pl Up Dn r1 r2 dl1 dl2 A B Hrel Fl1 Fl2). }
+    assert (CmpR : forall q0, (forall y, Up y -> forallb (pos y q0) rr = true) -> (forall y, Dn y -> forallb (pos y (negb q0)) rr = true) ->
+               forall s, if q0 then (count_den dr1 s <= count_den dr2 s)%Z else (count_den dr2 s <= count_den dr1 s)%Z).
+    { intros q0 A B s. apply count_ord. exact (Forall2_ord q0 rr IHr Pr Up Dn r1 r2 dr1 dr2 A B Hrel Fr1 Fr2). }
+    cbn [pos] in HU, HD.
+    destruct op; destruct p; cbn [negb] in HU, HD; cbn [ord_p]; intros s Hs;
+      first [rewrite E1 in Hs; rewrite E2 | rewrite E2 in Hs; rewrite E1]; cbn [cop_sem] in *;
+      try (pose proof (CmpL true ltac:(side HU HD) ltac:(side HU HD) s) as C1; cbv iota beta in C1);
+      try (pose proof (CmpL false ltac:(side HU HD) ltac:(side HU HD) s) as C2; cbv iota beta in C2);
+      try (pose proof (CmpR true ltac:(side HU HD) ltac:(side HU HD) s) as C3; cbv iota beta in C3);
+      try (pose proof (CmpR false ltac:(side HU HD) ltac:(side HU HD) s) as C4; cbv iota beta in C4); lia.
+  - (* FFix: the iterations in the two environments are compared through the fixed point reached by the other one *)
+    apply andb_true_iff in Hpf. destruct Hpf as [HposY Hpg].
+    assert (St : forall a b a' b', ord_p p a b -> Den (bind r1 Y a) g a' -> Den (bind r2 Y b) g b' -> ord_p p a' b').
+    { intros a b a' b' Hab Da Db.
+      apply (IH Hpg p (fun y => (y <> Y /\ Up y) \/ (y = Y /\ p = true)) (fun y => (y <> Y /\ Dn y) \/ (y = Y /\ p = false))
+                (bind r1 Y a) (bind r2 Y b) a' b'); auto.
+      - intros y [[Hne U]|[-> ->]]; [|exact HposY]. specialize (HU y U). cbn [pos] in HU.
+        destruct (Nat.eqb_spec Y y); [congruence|exact HU].
+      - intros y [[Hne D]|[-> ->]]; [|exact HposY]. specialize (HD y D). cbn [pos] in HD.
+        destruct (Nat.eqb_spec Y y); [congruence|exact HD].
+      - intros y. unfold bind. destruct (Nat.eqb_spec y Y) as [->|Hne].
+        + destruct p; cbn in Hab; right; [left|right]; split; auto.
+        + specialize (Hrel y). destruct (r1 y), (r2 y); auto.
+          destruct Hrel as [E|[[U L]|[D L]]]; [left; auto | right; left; split; auto | right; right; split; auto]. }
+    cbn [Den] in H1, H2.
+    destruct H1 as (s1 & n1 & I1 & S1 & _ & X1 & E1), H2 as (s2 & n2 & I2 & S2 & _ & X2 & E2).
+    destruct p, i; cbn [ord_p] in *.
+    + (* monotone, gfp: the left fixed point stays below every right iterate *)
+      assert (Hall : forall j, j <= n2 -> dle (s1 n1) (s2 j)).
+      { induction j as [|j IHj]; intros Hj.
+        - intros s _. rewrite (I2 s). reflexivity.
+        - pose proof (St (s1 n1) (s2 j) (s1 (S n1)) (s2 (S j)) (IHj ltac:(lia)) (S1 n1 (le_n _)) (S2 j ltac:(lia))) as Hs.
+          intros s Hq. apply Hs. rewrite (X1 s). exact Hq. }
+      intros s Hs. rewrite (E1 s) in Hs. rewrite (E2 s). apply (Hall n2 (le_n _)). exact Hs.
+    + (* monotone, lfp: every left iterate stays below the right fixed point *)
+      assert (Hall : forall j, j <= n1 -> dle (s1 j) (s2 n2)).
+      { induction j as [|j IHj]; intros Hj.
+        - intros s Hs. rewrite (I1 s) in Hs. discriminate.
+        - pose proof (St (s1 j) (s2 n2) (s1 (S j)) (s2 (S n2)) (IHj ltac:(lia)) (S1 j ltac:(lia)) (S2 n2 (le_n _))) as Hs.
+          intros s Hq. rewrite <- (X2 s). apply Hs. exact Hq. }
+      intros s Hs. rewrite (E1 s) in Hs. rewrite (E2 s). apply (Hall n1 (le_n _)). exact Hs.
+    + (* antitone, gfp *)
+      assert (Hall : forall j, j <= n1 -> dle (s2 n2) (s1 j)).
+      { induction j as [|j IHj]; intros Hj.
+        - intros s _. rewrite (I1 s). reflexivity.
+        - pose proof (St (s1 j) (s2 n2) (s1 (S j)) (s2 (S n2)) (IHj ltac:(lia)) (S1 j ltac:(lia)) (S2 n2 (le_n _))) as Hs.
+          intros s Hq. apply Hs. rewrite (X2 s). exact Hq. }
+      intros s Hs. rewrite (E2 s) in Hs. rewrite (E1 s). apply (Hall n1 (le_n _)). exact Hs.
+    + (* antitone, lfp *)
+      assert (Hall : forall j, j <= n2 -> dle (s2 j) (s1 n1)).
+      { induction j as [|j IHj]; intros Hj.
+        - intros s Hs. rewrite (I2 s) in Hs. discriminate.
+        - pose proof (St (s1 n1) (s2 j) (s1 (S n1)) (s2 (S j)) (IHj ltac:(lia)) (S1 n1 (le_n _)) (S2 j ltac:(lia))) as Hs.
+          intros s Hq. rewrite <- (X1 s). apply Hs. exact Hq. }
+      intros s Hs. rewrite (E2 s) in Hs. rewrite (E1 s). apply (Hall n2 (le_n _)). exact Hs.
+  - (* FIte *)
+    repeat match goal with H : _ && _ = true |- _ => apply andb_true_iff in H; destruct H end.
+    cbn [Den] in H1, H2. destruct H1 as (c1 & t1 & x1 & Dc1 & Dt1 & De1 & E1), H2 as (c2 & t2 & x2 & Dc2 & Dt2 & De2 & E2).
+    cbn [pos] in HU, HD.
+    assert (Hc : deq c1 c2).
+    { apply ord_both.
+      - apply (IHc ltac:(assumption) true Up Dn r1 r2 c1 c2); auto; destruct p; side HU HD.
+      - apply (IHc ltac:(assumption) false Up Dn r1 r2 c1 c2); auto; destruct p; side HU HD. }
+    assert (Ht : ord_p p t1 t2) by (apply (IHt ltac:(assumption) p Up Dn r1 r2 t1 t2); auto; side HU HD).
+    assert (He : ord_p p x1 x2) by (apply (IHe ltac:(assumption) p Up Dn r1 r2 x1 x2); auto; side HU HD).
+    destruct p; cbn in *; intros s Hs; [rewrite E1 in Hs; rewrite E2|rewrite E2 in Hs; rewrite E1]; rewrite <- ?(Hc s) in *;
+      destruct (c1 s) eqn:Ec; rewrite ?(Hc s) in *; try rewrite <- (Hc s); rewrite ?Ec in *; auto.
+  - (* FBin *) apply andb_true_iff in Hpf. destruct Hpf as [Pa Pb].
+    cbn [Den] in H1, H2. destruct H1 as (a1 & b1 & Da1 & Db1 & E1), H2 as (a2 & b2 & Da2 & Db2 & E2).
+    assert (Ha : forall q0, (forall y, Up y -> pos y q0 a = true) -> (forall y, Dn y -> pos y (negb q0) a = true) -> ord_p q0 a1 a2)
+      by (intros q0 A B; apply (IHa Pa q0 Up Dn r1 r2 a1 a2); auto).
+    assert (Hb : forall q0, (forall y, Up y -> pos y q0 b = true) -> (forall y, Dn y -> pos y (negb q0) b = true) -> ord_p q0 b1 b2)
+      by (intros q0 A B; apply (IHb Pb q0 Up Dn r1 r2 b1 b2); auto).
+    cbn [pos] in HU, HD.
+    destruct op; destruct p; cbn [negb] in HU, HD;
+      try (pose proof (Ha true ltac:(side HU HD) ltac:(side HU HD)) as A1);
+      try (pose proof (Ha false ltac:(side HU HD) ltac:(side HU HD)) as A2);
+      try (pose proof (Hb true ltac:(side HU HD) ltac:(side HU HD)) as B1);
+      try (pose proof (Hb false ltac:(side HU HD) ltac:(side HU HD)) as B2);
+      clear Ha Hb HU HD;
+      cbn [ord_p] in *; intros s Hs; first [rewrite E1 in Hs; rewrite E2 | rewrite E2 in Hs; rewrite E1]; cbn [binop_sem] in *;
+      repeat match goal with H : dle _ _ |- _ => specialize (H s) end;
+      destruct (a1 s), (a2 s), (b1 s), (b2 s); cbn in *; auto;
+      repeat match goal with H : true = true -> _ |- _ => specialize (H eq_refl) end; try discriminate; auto.
+  - (* FSub *) cbn [Den] in H1, H2. apply ord_refl_deq. intros s. rewrite H1, H2. reflexivity.
+  - (* FRef *) cbn [Den] in H1, H2. apply ord_refl_deq. intros s. rewrite H1, H2. reflexivity.
+Qed.
+
+(** the one-name instance: environments that differ in the value of X only *)
+Lemma erel_bind X r d1 d2 : dle d1 d2 -> erel (fun y => y = X) (fun _ => False) (bind r X d1) (bind r X d2).
+Proof.
+  intros Hd y. unfold bind. destruct (Nat.eqb_spec y X) as [->|Hne].
+  - right. left. split; auto.
+  - destruct (r y); auto. left. intros s. reflexivity.
+Qed.
+Theorem mono_posfix X f : posfix f = true -> forall p, pos X p f = true -> forall r d1 d2 e1 e2, dle d1 d2 ->
+  Den (bind r X d1) f e1 -> Den (bind r X d2) f e2 -> ord_p p e1 e2.
+Proof.
+  intros Hpf p Hp r d1 d2 e1 e2 Hd D1 D2.
+  apply (mono_env f Hpf p (fun y => y = X) (fun _ => False) (bind r X d1) (bind r X d2) e1 e2); auto.
+  - intros y ->. exact Hp.
+  - apply erel_bind. exact Hd.
+Qed.
+
+Lemma nofix_posfix : forall f, nofix f -> posfix f = true.
+Proof.
+  induction f as [| |v|g IH|q vs g IH|op fs n IH|op l rr IHl IHr|y i g IH|c t e IHc IHt IHe|op a b IHa IHb|b0|] using form_ind';
+    cbn [nofix posfix]; auto.
+  - intros H. apply nofix_list in H. apply forallb_forall. rewrite Forall_forall in *. auto.
+  - intros [H1 H2]. apply nofix_list in H1. apply nofix_list in H2. apply andb_true_iff.
+    rewrite !Forall_forall in *. split; apply forallb_forall; auto.
+  - intros (? & ? & ?). rewrite IHc, IHt, IHe; auto.
+  - intros (? & ?). rewrite IHa, IHb; auto.
+Qed.
+
+Theorem mono_pos X : forall f, nofix f -> forall p, pos X p f = true -> forall r d1 d2 e1 e2, dle d1 d2 ->
+  Den (bind r X d1) f e1 -> Den (bind r X d2) f e2 -> ord_p p e1 e2.
+Proof. intros f Hnf. apply mono_posfix. apply nofix_posfix. exact Hnf. Qed.
 
 (** C06 for syntactically monotone bodies: termination at the least / greatest fixed point *)
 Theorem C06_lfp_syntactic X T : nofsub T -> nofix T -> pos X true T = true ->
